@@ -5,7 +5,11 @@ together, mean 'output is a function of the input files and options only':
                     algebra) is iterated, listed or popped - unless wrapped in sorted() - in the package;
   reads/ambient     no use of id(), hash(), time, random, uuid, os.environ, os.getpid in the package;
   frame/global      no function stores into / mutates a module-level or class-level mutable object;
-  frame/default     no mutable default argument is mutated.
+  frame/default     no mutable default argument is mutated;
+  frame/memo        no function is memoised across calls (functools.lru_cache / cache, or an attribute stored on a
+                    function or module object): a cache outlives the run that filled it;
+  reads/dir-order   no directory listing (os.listdir / scandir / walk, glob, Path.iterdir / glob / rglob) is used
+                    unsorted: its order is the file system's, not the input's.
 
 Every site found is an obligation.  A site is discharged only by an entry of ALLOW below (a recorded argument why it
 cannot reach the PQR bytes).  A site that is not in ALLOW is a failed obligation; its replay is the native history /
@@ -46,6 +50,7 @@ class FuncVisitor(ast.NodeVisitor):
         self.classattrs = classattrs
         self.setvars = [set()]
         self.locals = [set()]
+        self.modfuncs = set()
 
     def qual(self):
         return ".".join(self.stack) or "<module>"
@@ -93,6 +98,14 @@ class FuncVisitor(ast.NodeVisitor):
         self.locals.pop()
         self.setvars.pop()
         self.stack.pop()
+
+        for dec in node.decorator_list:
+            d = dec.func if isinstance(dec, ast.Call) else dec
+            nm = d.id if isinstance(d, ast.Name) else getattr(d, "attr", "")
+            if nm in ("lru_cache", "cache"):
+                self.sites.append({"kind": "frame/memo", "file": self.rel, "function": ".".join(self.stack + [node.name]),
+                                   "line": node.lineno, "source": "@" + " ".join(ast.unparse(dec).split())[:150],
+                                   "note": "memoised across calls"})
 
     visit_AsyncFunctionDef = visit_FunctionDef
 
@@ -143,6 +156,9 @@ class FuncVisitor(ast.NodeVisitor):
                     self.add("frame/global", node, f"store into module-level {base.id}")
             if isinstance(t, ast.Attribute) and isinstance(t.value, ast.Name) and t.value.id in ("cls",) :
                 self.add("frame/global", node, f"store into class attribute {t.attr}")
+            if isinstance(t, ast.Attribute) and isinstance(t.value, ast.Name) and t.value.id in self.modfuncs \
+                    and t.value.id not in self.locals[-1]:
+                self.add("frame/memo", node, f"attribute stored on module-level function / class {t.value.id}")
 
     def visit_For(self, node):
         if self.is_setish(node.iter):
@@ -163,7 +179,11 @@ class FuncVisitor(ast.NodeVisitor):
                 self.add("reads/set-order", node, "materialising a hash-ordered collection")
             if f.id in ("next",) and node.args and self.is_setish(node.args[0]):
                 self.add("reads/set-order", node, "next() on a hash-ordered collection")
+            if f.id in ("glob", "iglob", "listdir", "scandir", "walk") and not self.sorted_parent(node):
+                self.add("reads/dir-order", node, f"{f.id}() unsorted")
         if isinstance(f, ast.Attribute):
+            if f.attr in ("listdir", "scandir", "walk", "glob", "iglob", "iterdir", "rglob") and not self.sorted_parent(node):
+                self.add("reads/dir-order", node, f".{f.attr}() unsorted")
             if isinstance(f.value, ast.Name) and f.value.id in AMBIENT_MODULES:
                 self.add("reads/ambient", node, f"{f.value.id}.{f.attr}")
             if f.attr in ("getenv",) or (isinstance(f.value, ast.Attribute) and f.value.attr == "environ"):
@@ -179,6 +199,11 @@ class FuncVisitor(ast.NodeVisitor):
                     and f.value.value.id in ("cls",):
                 self.add("frame/global", node, f"mutation of class attribute {f.value.attr}")
         self.generic_visit(node)
+
+    def sorted_parent(self, node):
+        """Is this call the direct argument of sorted(...)?  (parents are linked lazily)"""
+        par = getattr(node, "_parent", None)
+        return isinstance(par, ast.Call) and isinstance(par.func, ast.Name) and par.func.id == "sorted"
 
     def visit_Subscript(self, node):
         if isinstance(node.value, ast.Attribute) and node.value.attr == "environ":
@@ -214,7 +239,11 @@ def scan():
                                 if nm not in ("list", "dict", "set", "OrderedDict", "defaultdict"):
                                     continue
                             modglobals.add(t.id)
+            for parent in ast.walk(tree):
+                for child in ast.iter_child_nodes(parent):
+                    child._parent = parent
             v = FuncVisitor(rel, modglobals, set())
+            v.modfuncs = {st.name for st in tree.body if isinstance(st, (ast.FunctionDef, ast.ClassDef))}
             v.visit(tree)
             sites.extend(v.sites)
     return sites, nfiles, nfuncs
